@@ -236,7 +236,7 @@ func c39Alphabet(level int) []c39Op {
 		ctors = ctors[:4]
 	}
 	if level < 0 {
-		ctors = []c39Op{ctors[0], ctors[2]}
+		ctors = []c39Op{ctors[2]}
 	}
 	ops = append(ops, ctors...)
 	ops = append(ops, c39Op{name: "cur=cur.WithoutEmpty()", kind: c39WithoutEmpty})
@@ -540,7 +540,8 @@ func (y *c39Sys) observe(what string, l Labels, m c39Set, level int, out []byte)
 	// MatchLabels is only compared between the variants (digest), not with the model
 	// (only for sets without empty values: a stored empty value is outside the "map to non-empty
 	// values" domain, and slicelabels keeps such labels in MatchLabels while the others drop them)
-	if len(m.withoutEmpty()) == len(m) {
+	// (and not for the empty set: in dedupelabels every MatchLabels on it allocates a symbol table)
+	if len(m) > 0 && len(m.withoutEmpty()) == len(m) {
 		out = append(out, "MatchLabels"...)
 		out = c39List(l.MatchLabels(true, "a")).key(out)
 		out = c39List(l.MatchLabels(false, "a")).key(out)
